@@ -18,6 +18,24 @@ body = open('/verif/tools/seedprompt.body.md').read()
 for pid, d in props.items():
     tag = pid + '-' + rnd
     earlier = "\n".join("  - " + m['needs_to_manifest'] for m in seeds.get(pid, []))
+    # the functions earlier changes were made in (from the hunk headers of their patches)
+    import re
+    funcs = {}
+    for m in seeds.get(pid, []):
+        try:
+            txt = open('/verif/seeded/%s/patch.diff' % m['id']).read()
+        except OSError:
+            continue
+        cur = None
+        for line in txt.splitlines():
+            if line.startswith('+++ b/'):
+                cur = line[6:]
+            mm = re.match(r'^@@ .* @@ func (?:\([^)]*\) )?(\w+)', line)
+            if mm and cur:
+                funcs.setdefault(cur, set()).add(mm.group(1))
+    if funcs:
+        earlier += "\n  Functions those changes were made in (choose others where you can): " + "; ".join(
+            "%s: %s" % (f, ", ".join(sorted(v))) for f, v in sorted(funcs.items()))
     p = (body.replace('__TAG__', tag).replace('__TITLE__', d['title']).replace('__STATEMENT__', d['statement'])
              .replace('__QUANT__', d['quantifier']['text']).replace('__HINT__', hints[pid]).replace('__EARLIER__', earlier))
     open('/tmp/prompts%s/%s.md' % (rnd, pid), 'w').write(p)
